@@ -212,6 +212,65 @@ def innerTokenize (rules : List IRule) (mn : Int) (s : IState) : Except PyErr IS
   | .error e => .error e
   | .ok s' => .ok (if s'.pending.isEmpty then s' else s'.pushPending)
 
+/-- destination and optional title from `p1` on: `(pos, href, title)` -/
+def linkDestTitle (ext : IExt) (s : IState) (maximum p1 : Nat) : Nat × List Char × List Char :=
+  match parseLinkDestination ext s.src p1 s.posMax with
+  | some (dpos, dstr) =>
+    let ok := validateLink (ext.normLink dstr)
+    let p2 := if ok then dpos else p1
+    let href := if ok then ext.normLink dstr else []
+    let p3 := skipBlanksNl s.src maximum (maximum - p2) p2
+    match parseLinkTitle ext s.src p3 s.posMax with
+    | some (tpos, tstr) =>
+      if p3 < maximum && p2 != p3 then (skipBlanksNl s.src maximum (maximum - tpos) tpos, href, tstr)
+      else (p3, href, [])
+    | none => (p3, href, [])
+  | none => (p1, [], [])
+
+/-- the inline form `( dest "title" )` after the label: `(pos, href, title, parseReference)`, or `none` for "return False" -/
+def linkInline (ext : IExt) (s : IState) (labelEnd maximum : Nat) : Option (Nat × List Char × List Char × Bool) :=
+  let pos0 := labelEnd + 1
+  if pos0 < maximum && s.src[pos0]? == some '(' then
+    let p1 := skipBlanksNl s.src maximum (maximum - pos0) (pos0 + 1)
+    if p1 ≥ maximum then none else
+    let r := linkDestTitle ext s maximum p1
+    let bad := decide (r.1 ≥ maximum) || !(s.src[r.1]? == some ')')
+    some (r.1 + 1, r.2.1, r.2.2, bad)
+  else some (pos0, [], [], true)
+
+/-- the second label of the reference form `[text][label]`: `(pos, label, state)` -/
+def linkSecondLabel (mn : Int) (inner : List IRule) (s : IState) (labelEnd maximum pos1 : Nat) : Except PyErr (Nat × List Char × IState) :=
+  if pos1 < maximum && s.src[pos1]? == some '[' then
+    match parseLinkLabel inner mn s pos1 false with
+    | .error e => .error e
+    | .ok (e2, s2) =>
+      if e2 ≥ 0 then .ok (e2.toNat + 1, (s2.src.take e2.toNat).drop (pos1 + 1), s2) else .ok (labelEnd + 1, [], s2)
+  else .ok (labelEnd + 1, [], s)
+
+/-- the reference form: the state (caches of a second label walk) and, if a link was found, `(pos, href, title, label)` -/
+def linkRef (lx : LExt) (mn : Int) (inner : List IRule) (s : IState) (labelStart labelEnd maximum pos1 : Nat) :
+    Except PyErr (IState × Option (Nat × List Char × List Char × List Char)) :=
+  if !lx.hasRefs then .ok (s, none) else
+  match linkSecondLabel mn inner s labelEnd maximum pos1 with
+  | .error e => .error e
+  | .ok (pos2, label, s2) =>
+    let label := if label.isEmpty then (s2.src.take labelEnd).drop labelStart else label
+    let label := lx.normRef label
+    match lx.refs label with
+    | none => .ok (s2, none)
+    | some (h, t) => .ok (s2, some (pos2, h, t, label))
+
+/-- the tokens of a matched link: opening token (a new delimiter scope), the label tokenized one level down, closing token -/
+def linkEmit (lx : LExt) (mn : Int) (inner : List IRule) (s : IState) (labelStart labelEnd : Nat) (href title label : List Char) :
+    Except PyErr IState :=
+  let attrs : List (String × AttrVal) := [("href", .s (String.ofList href))]
+    ++ (if title.isEmpty then [] else [("title", .s (String.ofList title))])
+  let metaD : List (String × String) := if !label.isEmpty && lx.storeLabels then [("label", String.ofList label)] else []
+  let s1 := ({ s with pos := labelStart, posMax := labelEnd }).pushOpen "link_open" "a" attrs metaD
+  match innerTokenize inner mn { s1 with linkLevel := s1.linkLevel + 1 } with
+  | .error e => .error e
+  | .ok s2 => ({ s2 with linkLevel := s2.linkLevel - 1 }).pushClose "link_close" "a"
+
 /-- `link(state, silent)`; `inner` is `ruler.getRules("")` for the silent walks and the nested run -/
 def ruleLink (ext : IExt) (lx : LExt) (mn : Int) (inner : List IRule) : IRule := fun s silent =>
   match s.src[s.pos]? with
@@ -226,68 +285,30 @@ def ruleLink (ext : IExt) (lx : LExt) (mn : Int) (inner : List IRule) : IRule :=
     | .ok (labelEndI, s) =>
       if labelEndI < 0 then .ok (false, s) else
       let labelEnd := labelEndI.toNat
-      let pos0 := labelEnd + 1
-      -- the inline form: (pos, href, title, parseReference) or "return False"
-      let inl : Option (Nat × List Char × List Char × Bool) :=
-        if pos0 < maximum && s.src[pos0]? == some '(' then
-          let p1 := skipBlanksNl s.src maximum (maximum - pos0) (pos0 + 1)
-          if p1 ≥ maximum then none else
-          let r : Nat × List Char × List Char :=
-            match parseLinkDestination ext s.src p1 s.posMax with
-            | some (dpos, dstr) =>
-              let href := ext.normLink dstr
-              let (p2, href) := if validateLink href then (dpos, href) else (p1, [])
-              let p3 := skipBlanksNl s.src maximum (maximum - p2) p2
-              match parseLinkTitle ext s.src p3 s.posMax with
-              | some (tpos, tstr) =>
-                if p3 < maximum && p2 != p3 then (skipBlanksNl s.src maximum (maximum - tpos) tpos, href, tstr)
-                else (p3, href, [])
-              | none => (p3, href, [])
-            | none => (p1, [], [])
-          let bad := decide (r.1 ≥ maximum) || !(s.src[r.1]? == some ')')
-          some (r.1 + 1, r.2.1, r.2.2, bad)
-        else some (pos0, [], [], true)
-      match inl with
+      match linkInline ext s labelEnd maximum with
       | none => .ok (false, s)
       | some (pos1, href1, title1, parseReference) =>
-        -- the reference form: the state (caches of a second label walk) and, if a link was found, its data
         let refE : Except PyErr (IState × Option (Nat × List Char × List Char × List Char)) :=
-          if !parseReference then .ok (s, some (pos1, href1, title1, [])) else
-          if !lx.hasRefs then .ok (s, none) else
-          let lab : Except PyErr (Nat × List Char × IState) :=
-            if pos1 < maximum && s.src[pos1]? == some '[' then
-              match parseLinkLabel inner mn s pos1 false with
-              | .error e => .error e
-              | .ok (e2, s2) =>
-                if e2 ≥ 0 then .ok (e2.toNat + 1, (s2.src.take e2.toNat).drop (pos1 + 1), s2) else .ok (labelEnd + 1, [], s2)
-            else .ok (labelEnd + 1, [], s)
-          match lab with
-          | .error e => .error e
-          | .ok (pos2, label, s2) =>
-            let label := if label.isEmpty then (s2.src.take labelEnd).drop labelStart else label
-            let label := lx.normRef label
-            match lx.refs label with
-            | none => .ok (s2, none)
-            | some (h, t) => .ok (s2, some (pos2, h, t, label))
+          if !parseReference then .ok (s, some (pos1, href1, title1, []))
+          else linkRef lx mn inner s labelStart labelEnd maximum pos1
         match refE with
         | .error e => .error e
         | .ok (s, none) => .ok (false, { s with pos := oldPos })
         | .ok (s, some (pos, href, title, label)) =>
           if silent then .ok (true, { s with pos := pos, posMax := maximum }) else
-          let attrs : List (String × AttrVal) := [("href", .s (String.ofList href))]
-            ++ (if title.isEmpty then [] else [("title", .s (String.ofList title))])
-          let metaD : List (String × String) := if !label.isEmpty && lx.storeLabels then [("label", String.ofList label)] else []
-          let s1 := ({ s with pos := labelStart, posMax := labelEnd }).pushOpen "link_open" "a" attrs metaD
-          match innerTokenize inner mn { s1 with linkLevel := s1.linkLevel + 1 } with
+          match linkEmit lx mn inner s labelStart labelEnd href title label with
           | .error e => .error e
-          | .ok s2 =>
-            match ({ s2 with linkLevel := s2.linkLevel - 1 }).pushClose "link_close" "a" with
-            | .error e => .error e
-            | .ok s3 => .ok (true, { s3 with pos := pos, posMax := maximum })
+          | .ok s3 => .ok (true, { s3 with pos := pos, posMax := maximum })
 
 /-! ### the second chain over all scopes -/
 
-def metasSorted (s : IState) : List (Nat × List Delim) := s.metas.mergeSort (fun a b => a.1 ≤ b.1)
+/-- insertion by the index of the opening token -/
+def insertMeta (p : Nat × List Delim) : List (Nat × List Delim) → List (Nat × List Delim)
+  | [] => [p]
+  | q :: rest => if p.1 ≤ q.1 then p :: q :: rest else q :: insertMeta p rest
+
+/-- the closed scopes in token order (the order in which `tokens_meta` is walked) -/
+def metasSorted (s : IState) : List (Nat × List Delim) := s.metas.foldr insertMeta []
 
 /-- `balance_pairs.link_pairs` -/
 def balancePairsL (s : IState) : IState :=
